@@ -588,3 +588,56 @@ func (u Update) String() string {
 	}
 	return s
 }
+
+// ---------------------------------------------------------------------------
+// Function tables
+
+var allFeatureTypes = []model.FeatureTypeType{
+	model.FeatureTypeTypeActuatorLevel, model.FeatureTypeTypeActuatorSwitch, model.FeatureTypeTypeAlarm, model.FeatureTypeTypeDataTunneling,
+	model.FeatureTypeTypeDeviceClassification, model.FeatureTypeTypeDeviceDiagnosis, model.FeatureTypeTypeDirectControl, model.FeatureTypeTypeElectricalConnection,
+	model.FeatureTypeTypeGeneric, model.FeatureTypeTypeHvac, model.FeatureTypeTypeLoadControl, model.FeatureTypeTypeMeasurement, model.FeatureTypeTypeMessaging,
+	model.FeatureTypeTypeNetworkManagement, model.FeatureTypeTypeNodeManagement, model.FeatureTypeTypeOperatingConstraints, model.FeatureTypeTypePowerSequences,
+	model.FeatureTypeTypeSensing, model.FeatureTypeTypeSetpoint, model.FeatureTypeTypeSmartEnergyManagementPs, model.FeatureTypeTypeTaskManagement,
+	model.FeatureTypeTypeThreshold, model.FeatureTypeTypeTimeInformation, model.FeatureTypeTypeTimeTable, model.FeatureTypeTypeDeviceConfiguration,
+	model.FeatureTypeTypeSupplyCondition, model.FeatureTypeTypeTimeSeries, model.FeatureTypeTypeTariffInformation, model.FeatureTypeTypeIncentiveTable,
+	model.FeatureTypeTypeBill, model.FeatureTypeTypeIdentification, model.FeatureTypeTypeStateInformation,
+}
+
+// FeatureTypes lists every feature type of the data model.
+func FeatureTypes() []model.FeatureTypeType { return allFeatureTypes }
+
+type FnInfo struct {
+	Fn model.FunctionType
+	T  reflect.Type // payload struct type
+}
+
+// FunctionsOf returns the functions the stack registers for a feature type, sorted by name.
+func FunctionsOf(ft model.FeatureTypeType) []FnInfo {
+	var res []FnInfo
+	for _, fd := range spine.CreateFunctionData[api.FunctionDataCmdInterface](ft) {
+		res = append(res, FnInfo{fd.FunctionType(), reflect.TypeOf(fd.DataCopyAny()).Elem()})
+	}
+	sort.Slice(res, func(i, j int) bool { return res[i].Fn < res[j].Fn })
+	return res
+}
+
+// CmdFields returns every function named by a payload field of model.CmdType with its payload type.
+func CmdFields() []FnInfo {
+	var res []FnInfo
+	ct := reflect.TypeOf(model.CmdType{})
+	for i := 0; i < ct.NumField(); i++ {
+		f := ct.Field(i)
+		if fct, ok := model.EEBusTags(f)[model.EEBusTagFunction]; ok && f.Type.Kind() == reflect.Ptr {
+			res = append(res, FnInfo{model.FunctionType(fct), f.Type.Elem()})
+		}
+	}
+	sort.Slice(res, func(i, j int) bool { return res[i].Fn < res[j].Fn })
+	return res
+}
+
+// CmdFor builds a command carrying payload (a pointer to the function's payload struct).
+func CmdFor(fn model.FunctionType, payload any) model.CmdType {
+	c := model.CmdType{}
+	c.SetDataForFunction(fn, payload)
+	return c
+}
